@@ -92,6 +92,9 @@ func (c JSONMapCodec) appendKV(data []byte, k string, v any) []byte {
 
 func (c JSONMapCodec) Read(data []byte, ptr unsafe.Pointer, wt plenccore.WireType) (n int, err error) {
 	count, n := plenccore.ReadVarUint(data)
+	if n < 0 || (n == 0 && len(data) != 0) {
+		return 0, fmt.Errorf("bad count in map")
+	}
 	if n == 0 {
 		return 0, nil
 	}
@@ -105,7 +108,7 @@ func (c JSONMapCodec) Read(data []byte, ptr unsafe.Pointer, wt plenccore.WireTyp
 
 	for ; count > 0; count-- {
 		l, n := plenccore.ReadVarUint(data[offset:])
-		if n < 0 {
+		if n <= 0 {
 			return 0, fmt.Errorf("bad length in map")
 		}
 		offset += n
@@ -173,6 +176,9 @@ func (c JSONArrayCodec) append(data []byte, ptr unsafe.Pointer) []byte {
 
 func (c JSONArrayCodec) Read(data []byte, ptr unsafe.Pointer, wt plenccore.WireType) (n int, err error) {
 	count, n := plenccore.ReadVarUint(data)
+	if n < 0 || (n == 0 && len(data) != 0) {
+		return 0, fmt.Errorf("bad count in array")
+	}
 	offset := n
 
 	a := *(*[]any)(ptr)
@@ -183,7 +189,7 @@ func (c JSONArrayCodec) Read(data []byte, ptr unsafe.Pointer, wt plenccore.WireT
 
 	for i := range a {
 		l, n := plenccore.ReadVarUint(data[offset:])
-		if n < 0 {
+		if n <= 0 {
 			return 0, fmt.Errorf("bad length in map")
 		}
 		offset += n
@@ -302,12 +308,15 @@ func readJSONKV(data []byte, key *string, val *any) (n int, err error) {
 
 	for offset < len(data) {
 		wt, index, n := plenccore.ReadTag(data[offset:])
+		if n <= 0 {
+			return 0, fmt.Errorf("invalid tag in JSON value")
+		}
 		offset += n
 		switch index {
 		case 1:
 			// When using this for reading arrays we simply don't see this index
 			l, n := plenccore.ReadVarUint(data[offset:])
-			if n < 0 {
+			if n <= 0 {
 				return 0, fmt.Errorf("bad length on string field")
 			}
 			offset += n
@@ -319,7 +328,7 @@ func readJSONKV(data []byte, key *string, val *any) (n int, err error) {
 			offset += n
 		case 2:
 			v, n := plenccore.ReadVarUint(data[offset:])
-			if n < 0 {
+			if n <= 0 {
 				return 0, fmt.Errorf("invalid map type field")
 			}
 			jType = jsonType(v)
@@ -328,7 +337,7 @@ func readJSONKV(data []byte, key *string, val *any) (n int, err error) {
 			switch jType {
 			case jsonTypeString:
 				l, n := plenccore.ReadVarUint(data[offset:])
-				if n < 0 {
+				if n <= 0 {
 					return 0, fmt.Errorf("bad length on string field")
 				}
 				offset += n
@@ -387,7 +396,7 @@ func readJSONKV(data []byte, key *string, val *any) (n int, err error) {
 
 			case jsonTypeNumber:
 				l, n := plenccore.ReadVarUint(data[offset:])
-				if n < 0 {
+				if n <= 0 {
 					return 0, fmt.Errorf("bad length on JSON number field")
 				}
 				offset += n
